@@ -3,7 +3,9 @@
    from the ABSTRACT classes logged with the request (the concrete URL is carried along for the report only).
    Events (two lines per request):
      req {id, srv, ep, method, parts:[{k,c}], ctx:[{k,c}], asset, tail, query, body, url, rep}
-     out {id, kind: status|panic|fatal|timeout|slow, status, blen, site, top, msg, ms}
+     out {id, kind: status|panic|fatal|timeout|slow, status, blen, site, top, chain, msg, ms}
+         site = innermost frame inside the repository (file.go:Func); chain = repository frames of a handler that
+         did not return (innermost first)
    kind "slow": a first-stage timeout that could not be re-run alone with the long bound (confirmation budget
    exhausted) - not judged, counted by the check.
    Clauses: C08.no_panic, C08.terminates, C08.4xx_on_malformed, C08.404_unknown, C08.deliberate;
